@@ -1673,6 +1673,8 @@ pub fn run_c12(tier: Tier) -> i32 {
     al.sizes = vec![SIZE_S, SIZE_M, SIZE_L, (1, D), (33, 3 * D)];
     al.prices = vec![8 * D];
     al.blocks = vec![15, 3900];
+    // a position's owner may liquidate it too: still a liquidation, still no trading fee
+    al.self_liq = true;
     let alpha = al.acts();
     let mk = |cw20: bool, toll: u128, spread: u128| {
         let mut c = cfg_with(cw20, false, 0);
@@ -2216,7 +2218,8 @@ pub fn run_c17(tier: Tier) -> i32 {
     let mut exps = vec![];
     match tier {
         Tier::Quick => {
-            exps.push(Exp::new("engine limits", cfg_with(true, false, 0), alpha.clone(), seeds.clone(), 3));
+            exps.push(Exp::new("engine limits", cfg_with(true, true, 0), alpha.clone(), seeds.clone(), 3));
+            exps.push(Exp::new("engine limits", cfg_with(false, false, 0), alpha.clone(), seeds.clone(), 2));
         }
         Tier::Thorough => {
             exps.push(Exp::new("engine limits", cfg_with(true, true, 0), alpha.clone(), seeds.clone(), 4));
